@@ -19,6 +19,10 @@ Definition x_rdv_rows : list (row_verdict * list (list N)) :=
   Eval vm_compute in map (fun r => (fst r, [codes (fst (snd r)); codes (snd (snd r))])) rdv_rows.
 Definition x_acc_rows : list (row_verdict * list (list N) * bool) :=
   Eval vm_compute in map (fun r => (fst r, [codes (fst (fst (snd r))); codes (snd (fst (snd r)))], snd (snd r))) acc_rows.
+Definition x_shared_rows : list (row_verdict * list (list N)) :=
+  Eval vm_compute in map (fun r => (fst r, [codes (fst (fst (snd r))); codes (snd (fst (snd r))); codes (snd (snd r))])) shared_rows.
+Definition x_join_rows : list (row_verdict * list (list N)) :=
+  Eval vm_compute in map (fun r => (fst r, [codes (fst (fst (snd r))); codes (snd (fst (snd r))); codes (snd (snd r))])) join_rows.
 Definition x_unclassified : list (list N) := Eval vm_compute in map codes unclassified_fields.
 Definition x_dyn_rows : list (list (list N)) := Eval vm_compute in map (fun d => [codes (fst d); codes (snd d)]) dyn_rows.
 Definition x_good_cycle : option (list (list N)) :=
@@ -32,4 +36,4 @@ Definition x_counts : list N :=
 
 Extraction Language OCaml.
 Extraction "c25_model.ml" conv_anchor acyclic_check is_cycle x_good_edges x_all_edges x_edge_rows x_leak_rows
-  x_rdv_rows x_acc_rows x_unclassified x_dyn_rows x_good_cycle x_all_cycle x_lock_names x_counts.
+  x_rdv_rows x_acc_rows x_shared_rows x_join_rows x_unclassified x_dyn_rows x_good_cycle x_all_cycle x_lock_names x_counts.
